@@ -533,7 +533,8 @@ W2_ESSENTIAL = {
     "C04": ["alloc-fault", "api-fault", "fault-fired", "restarted-after-failure"],
     "C05": ["alloc-fault", "api-fault", "fault-fired", "destroy-while-running"],
     "C06": ["terminated", "killed", "destroy-while-running"],
-    "C03": ["start-succeeded"],
+    "C03": ["start-succeeded", "fork-mode"],
+    "C08": ["polled-weeks-after-start", "interrupted-by-signal"],
     "C09": ["poll-after-eof", "output-piped"],
     "C17": ["blocking-probe", "stdin-flood", "startup-input-beyond-capacity"],
     "C10": ["output-piped", "start-succeeded"],
